@@ -2364,3 +2364,23 @@ func onlyCompared(v ssa.Value) bool {
 	}
 	return true
 }
+
+// RunClosure executes a closure value (function plus bindings) from the given state; used by rules that need the
+// behaviour of a func value stored by a constructor (sync.Pool.New).
+func (ip *Interp) RunClosure(cv ClosureV, st *State) []Outcome {
+	fn := cv.Fn
+	if fn == nil || len(fn.Blocks) == 0 {
+		return nil
+	}
+	fr := &frame{fn: fn, env: map[ssa.Value]Val{}, info: ip.info(fn), stack: []*ssa.Function{fn}}
+	for i, fv := range fn.FreeVars {
+		if i < len(cv.Bind) {
+			fr.env[fv] = cv.Bind[i]
+		}
+	}
+	s2 := st.clone()
+	for _, p := range fn.Params {
+		fr.env[p] = ip.symVal(p.Name(), p.Type(), OParam, p.Name(), s2)
+	}
+	return ip.execFrom(fr, fn.Blocks[0], 0, nil, s2)
+}
